@@ -23,6 +23,10 @@ def placeholderShorthands : List (String × String) := [("{host}", "{http.reques
 /-- modules/caddyhttp/app.go (*App).Stop: every `caddy.ListenerUsage(args)` call: `args | enclosing range loops` -/
 def listenerUsageCalls : List String := ["addr.Network, addr.JoinHostPort(0) | server in app.Servers; na in server.addresses; addr in na.Expand()"]
 
+/-- modules/caddyhttp/app.go, server.go: every `BaseContext` / `ConnContext` of an http.Server (composite-literal
+    field or assignment) with what the function returns: the parents of the request contexts -/
+def httpServerContextFields : List String := ["app.go ConnContext: func returning context.WithValue(ctx,ConnCtxKey,c)", "server.go server.ConnContext = func returning f(baseConnContextFunc(ctx,c),c)", "server.go server.ConnContext = f"]
+
 /-- every name passed as a string literal to RegisterDirective / RegisterHandlerDirective in non-test files of the module (sorted) -/
 def registeredDirectives : List String := ["abort", "acme_server", "basic_auth", "basicauth", "bind", "copy_response", "copy_response_headers", "encode", "error", "file_server", "forward_auth", "fs", "handle", "handle_errors", "handle_path", "header", "intercept", "invoke", "log", "log_append", "log_name", "log_skip", "map", "method", "metrics", "php_fastcgi", "push", "redir", "request_body", "request_header", "respond", "reverse_proxy", "rewrite", "root", "route", "skip_log", "templates", "tls", "tracing", "try_files", "uri", "vars"]
 
@@ -31,7 +35,7 @@ def registeredGlobalOptions : List String := ["acme_ca", "acme_ca_root", "acme_d
 
 /-- modules/caddyhttp/autohttps.go automaticHTTPSPhase1: every `range` statement in source order: (`sortedkeys`, m) for
     `range slices.Sorted(maps.Keys(m))`, else (`plain`, the ranged expression) -/
-def autoHTTPSRanges : List (String × String) := [("plain", "srvNames"), ("plain", "srv.Routes"), ("plain", "route.MatcherSets"), ("plain", "matcherSet"), ("plain", "*hm"), ("plain", "serverDomainSet"), ("plain", "serverDomainSet"), ("plain", "srv.Listen"), ("plain", "serverDomainSet"), ("sortedkeys", "uniqueDomainsForCerts"), ("plain", "app.tlsApp.Automation.Policies"), ("plain", "ap.Subjects()"), ("sortedkeys", "redirDomains"), ("plain", "redirDomains[domain]"), ("sortedkeys", "domainsByAddr"), ("sortedkeys", "redirServers"), ("plain", "srvNames")]
+def autoHTTPSRanges : List (String × String) := [("plain", "srvNames"), ("plain", "srv.Routes"), ("plain", "route.MatcherSets"), ("plain", "matcherSet"), ("plain", "*hm"), ("plain", "serverDomainSet"), ("plain", "serverDomainSet"), ("plain", "srv.Listen"), ("plain", "serverDomainSet"), ("sortedkeys", "uniqueDomainsForCerts"), ("plain", "app.tlsApp.Automation.Policies"), ("plain", "ap.Subjects()"), ("sortedkeys", "redirDomains"), ("plain", "redirDomains[domain]"), ("sortedkeys", "domainsByAddr"), ("plain", "domains"), ("sortedkeys", "redirServers"), ("plain", "srvNames")]
 
 /-- modules/caddyhttp/fileserver/staticfiles.go: the literals of `var defaultIndexNames` -/
 def defaultIndexNames : List String := ["index.html", "index.txt"]
